@@ -228,6 +228,8 @@ let dispatch = function
             | None -> "ERR"))
   (* multisig cosigner wallets are probed against the independent oracle only (no key book model for them) *)
   | "msrun" :: _ -> "PROBE"
+  (* wallets with a custom key_path (hardened change / index levels, ...): no key book model, oracle only *)
+  | "kprun" :: _ -> "PROBE"
   (* configurations / arguments outside the key book model (single-key wallets, level_offset, cosigner_id): oracle only *)
   | "probe" :: _ -> "PROBE"
   | _ -> "BADREQ"
